@@ -17,8 +17,24 @@ GROUP = Group("driver-stub", name="driver-stub", no_default_features=False, rust
 PLAN = [(GROUP, {"quick": ['c05_q_', 'c01_q_cancel_vs_completion'], "thorough": ["c05_t_"]})]
 
 
+SUBMIT_ASSUMPTIONS = [
+    "runtime level: the Submit future of compio-runtime (poll for both result shapes, the pin-project drop body) is interpreted from "
+    "MIR with the Proactor summarised by its contract: submit_raw -> Pending(key) | Ready(result), poll_task -> Pending(key) | "
+    "Ready(result), cancel(key); context with / without cancel token and extra data; programs of <= 3 steps of poll / drop",
+    "outside: SubmitMulti (multishot stream), CancelToken's own bookkeeping, the timeout / select combinators that drop the future",
+]
+
+
 def run(tier):
-    return kaniprop.run("C05", tier, PLAN, ASSUMPTIONS)
+    import sys, os
+    sys.path.insert(0, os.path.join(os.path.dirname(os.path.abspath(__file__)), "..", "mirsym"))
+    import multiprop
+    import mirprop
+    from submitplan import SubmitPlan
+    return multiprop.run("C05", tier, [
+        ("Proactor / key layer (kani)", lambda: kaniprop.run("C05", tier, PLAN, ASSUMPTIONS)),
+        ("Submit future (mirsym)", lambda: mirprop.run("C05", tier, SubmitPlan(), SUBMIT_ASSUMPTIONS)),
+    ])
 
 
 def replay(path):
